@@ -142,6 +142,11 @@ func TestC15(t *testing.T) {
 		dbb := c15New(T)
 		b := &c15Backend{"10.0.0.1:5060"}
 		nshort := rapid.IntRange(1, 100).Draw(rt, "short-lived pins")
+		if rapid.Bool().Draw(rt, "many pins expire in the same period") {
+			// hundreds to thousands of pins created together: one sweep has to take them all
+			nshort = rapid.SampledFrom([]int{150, 300, 700, 1500, 4000}).Draw(rt, "burst of pins")
+			V.Class("boundedness: >= 150 pins expire within one period")
+		}
 		hugeAt := rapid.IntRange(0, 3).Draw(rt, "huge pin at phase") // 0 = none, 1 before, 2 after the first sleep, 3 during traffic
 		hugeExp := rapid.SampledFrom([]int{1<<31 - 1, 86400, 3600}).Draw(rt, "huge Expires")
 		warm := rapid.Bool().Draw(rt, "let the first sweep period pass first")
